@@ -1,12 +1,14 @@
 package props
 
 import (
+	"context"
 	"encoding/json"
 	"fmt"
 	"io"
 	"net/http"
 	"net/http/httptest"
 	"net/url"
+	"os"
 	goruntime "runtime"
 	"sort"
 	"strconv"
@@ -41,6 +43,14 @@ import (
 //	  6 ResetAuth; `back` = 0 applies it to the request value held after the previous instruction
 //	  (threading), k > 0 to the value held k instructions earlier (a stale value). Authorize and
 //	  BindAndValidate get their route the way the code's callers get it: RouteInfo on the same value.
+//	  <variant> is a set of flags; none of them changes what the stage functions yield, so the Lean side
+//	  does not look at it: 1 no authorizer registered; 2 the Context is built with NewContext over the
+//	  untyped API (else NewRoutableContext over a RoutableAPI); 4 debug logging on (logger injected with
+//	  SetLogger / WithDefaultRouterLogger while DEBUG is set); 8 the request looks the way net/http's
+//	  server hands it over (URL parsed from the request line, so an escaped id travels in RawPath;
+//	  Content-Length header; a caller's context carrying values; body delivered in reads of a few bytes
+//	  with io.EOF alongside the last ones); 16 between any two instructions a FOREIGN request (other
+//	  operation, media types, principal, body) is taken through all accessors of the same Context.
 //
 //	R <n> <gomaxprocs> <requests> <tokens> => <solo observations> <concurrent observations> <echoed tokens>
 //	  n mixed requests (each carrying its own correlation token in path, query, header, body and
@@ -71,7 +81,12 @@ const c09Spec = `{
     "delete":{"operationId":"deleteItem","produces":["text/plain"],
       "security":[{"key":["r"]},{}],
       "parameters":[{"name":"id","in":"path","type":"integer","required":true},{"name":"q","in":"query","type":"string"},{"name":"X-Tok","in":"header","type":"string"}],
-      "responses":{"200":{"description":"ok"}}}},
+      "responses":{"200":{"description":"ok"}}},
+    "patch":{"operationId":"patchItem","produces":["text/plain"],
+      "security":[{"key":[]}],
+      "parameters":[{"name":"id","in":"path","type":"integer","required":true},{"name":"q","in":"query","type":"string"},{"name":"X-Tok","in":"header","type":"string"},
+        {"name":"body","in":"body","schema":{"type":"object"}}],
+      "responses":{"204":{"description":"nothing to say"}}}},
   "/items":{
     "post":{"operationId":"postItem","consumes":["text/plain"],
       "security":[{},{"key":["r"]}],
@@ -85,6 +100,10 @@ const c09Spec = `{
   "/open":{
     "get":{"operationId":"open","produces":["text/plain"],
       "parameters":[{"name":"q","in":"query","type":"string"},{"name":"X-Tok","in":"header","type":"string"}],
+      "responses":{"200":{"description":"ok"}}}},
+  "/ping":{
+    "head":{"operationId":"ping","produces":["text/plain"],
+      "parameters":[{"name":"q","in":"query","type":"string"},{"name":"X-Tok","in":"header","type":"string"}],
       "responses":{"200":{"description":"ok"}}}}
  }}`
 
@@ -92,7 +111,8 @@ const c09Spec = `{
 // the entries of a Go map, so with two the order of route.Consumes / route.Produces (and with it the
 // winner of a tie in the negotiation, and the text of 415/406 messages) would differ from one router
 // build to the next. The API default (application/json) is appended behind it by AddRoute.
-var c09Ops = [][2]string{{"GET", "/items/{id}"}, {"PUT", "/items/{id}"}, {"POST", "/items"}, {"GET", "/items"}, {"GET", "/open"}, {"DELETE", "/items/{id}"}}
+var c09Ops = [][2]string{{"GET", "/items/{id}"}, {"PUT", "/items/{id}"}, {"POST", "/items"}, {"GET", "/items"}, {"GET", "/open"}, {"DELETE", "/items/{id}"},
+	{"PATCH", "/items/{id}"}, {"HEAD", "/ping"}} // answered without a body: status 204 / method HEAD (two more exits of Respond)
 var c09Schemes = []string{"key", "basic", "tok"}
 
 // ---------------------------------------------------------------------------------------------
@@ -126,6 +146,16 @@ func c09Cred(v string) (bool, interface{}, error) {
 		return true, nil, nil
 	case strings.HasPrefix(v, "p"):
 		return true, v[1:], nil
+	// principals that are not strings — zero values of their types, and a nil pointer inside a non-nil
+	// interface value: principals like any other (only the nil interface means "nobody")
+	case v == "i0":
+		return true, 0, nil
+	case v == "b0":
+		return true, false, nil
+	case v == "t0":
+		return true, (*c09Who)(nil), nil
+	case v == "s0":
+		return true, c09Who{}, nil
 	case v == "e401":
 		return true, nil, apierrors.Unauthenticated("c09")
 	case v == "e403":
@@ -133,6 +163,8 @@ func c09Cred(v string) (bool, interface{}, error) {
 	}
 	return true, nil, fmt.Errorf("c09 plain authenticator error")
 }
+
+type c09Who struct{ name string }
 
 func c09CredOutcome(v string) string {
 	applies, p, err := c09Cred(v)
@@ -144,7 +176,7 @@ func c09CredOutcome(v string) string {
 	case p == nil:
 		return "z"
 	}
-	return "p" + p.(string)
+	return "p" + fmt.Sprint(p)
 }
 
 func c09Authz(v string) error {
@@ -238,7 +270,7 @@ func c09Render(v interface{}) string {
 
 var c09Doc *loads.Document
 
-func c09Build(variant int, serve bool) *c09API {
+func c09Build(variant int, serve bool, entry int) *c09API {
 	if c09Doc == nil {
 		d, err := loads.Analyzed(json.RawMessage(c09Spec), "")
 		if err != nil {
@@ -269,7 +301,7 @@ func c09Build(variant int, serve bool) *c09API {
 			return c09Cred(sr.Request.Header.Get("X-Cred-" + s))
 		}))
 	}
-	if variant == 0 {
+	if variant&c09NoAuthorizer == 0 {
 		api.RegisterAuthorizer(runtime.AuthorizerFunc(func(r *http.Request, principal interface{}) error {
 			a.sink.add("Z")
 			if serve {
@@ -294,22 +326,81 @@ func c09Build(variant int, serve bool) *c09API {
 		}))
 	}
 	a.api = api
+	var lg c09Log
+	if variant&c09Debug != 0 {
+		// the library decides at construction time (environment) whether its debug lines go anywhere
+		// (a Context starts with the package's Logger until SetLogger is called)
+		os.Setenv("DEBUG", "1")
+		defer os.Unsetenv("DEBUG")
+		middleware.Logger = lg
+	}
 	if serve {
-		a.handler = middleware.Serve(c09Doc, api)
+		// the public ways to the same handler chain (router -> security -> binder -> operation -> Respond)
+		newCtx := func() *middleware.Context {
+			c := middleware.NewContext(c09Doc, api, nil)
+			if variant&c09Debug != 0 {
+				c.SetLogger(lg)
+			}
+			return c
+		}
+		switch entry {
+		case 0:
+			a.handler = middleware.Serve(c09Doc, api)
+		case 1:
+			a.handler = middleware.ServeWithBuilder(c09Doc, api, func(h http.Handler) http.Handler {
+				return http.HandlerFunc(func(w http.ResponseWriter, r *http.Request) { h.ServeHTTP(w, r) })
+			})
+		case 2:
+			a.handler = newCtx().APIHandler(nil)
+		case 3:
+			a.handler = newCtx().RoutesHandler(nil)
+		case 4:
+			a.handler = newCtx().APIHandlerSwaggerUI(middleware.PassthroughBuilder)
+		default:
+			a.handler = newCtx().APIHandlerRapiDoc(nil)
+		}
 		return a
 	}
 	ra := &c09Routable{api: api}
-	a.inner = middleware.DefaultRouter(c09Doc, ra)
-	a.ctx = middleware.NewRoutableContext(c09Doc, ra, &c09Router{inner: a.inner, a: a})
+	if variant&c09Debug != 0 {
+		a.inner = middleware.DefaultRouter(c09Doc, ra, middleware.WithDefaultRouterLogger(lg))
+	} else {
+		a.inner = middleware.DefaultRouter(c09Doc, ra)
+	}
+	if variant&c09UntypedCtx != 0 {
+		a.ctx = middleware.NewContext(c09Doc, api, &c09Router{inner: a.inner, a: a})
+	} else {
+		a.ctx = middleware.NewRoutableContext(c09Doc, ra, &c09Router{inner: a.inner, a: a})
+	}
+	if variant&c09Debug != 0 {
+		a.ctx.SetLogger(lg)
+	}
 	return a
 }
+
+// the flags of <variant> (stream A); what kind of Context it is depends on the first three only
+const (
+	c09NoAuthorizer = 1 << iota
+	c09UntypedCtx
+	c09Debug
+	c09ServerLike
+	c09Interloper
+	c09VariantEnd
+)
+
+// c09Log formats every debug line (so what the code passes to its logger is evaluated) and drops it.
+type c09Log struct{}
+
+func (c09Log) Printf(f string, args ...interface{}) { fmt.Fprintf(io.Discard, f, args...) }
+func (c09Log) Debugf(f string, args ...interface{}) { fmt.Fprintf(io.Discard, f, args...) }
 
 var c09APIs = map[int]*c09API{}
 
 func c09Get(variant int) *c09API {
+	variant &= c09NoAuthorizer | c09UntypedCtx | c09Debug
 	a, ok := c09APIs[variant]
 	if !ok {
-		a = c09Build(variant, false)
+		a = c09Build(variant, false, 0)
 		c09APIs[variant] = a
 	}
 	return a
@@ -319,19 +410,26 @@ func c09Get(variant int) *c09API {
 // requests
 
 type c09Body struct {
-	data []byte
-	off  int
-	read *int
+	data  []byte
+	off   int
+	read  *int
+	chunk int // > 0: at most so many bytes per Read, io.EOF alongside the last ones (as a network body may)
 }
 
 func (b *c09Body) Read(p []byte) (int, error) {
 	if b.off >= len(b.data) {
 		return 0, io.EOF
 	}
+	if b.chunk > 0 && len(p) > b.chunk {
+		p = p[:b.chunk]
+	}
 	n := copy(p, b.data[b.off:])
 	b.off += n
 	if b.read != nil {
 		*b.read += n
+	}
+	if b.chunk > 0 && b.off >= len(b.data) {
+		return n, io.EOF
 	}
 	return n, nil
 }
@@ -342,16 +440,50 @@ type c09Req struct {
 	cts, accs, creds    []string
 	authz, body         string
 	tok                 string
+	server              bool // shaped the way net/http's server hands a request over (see mk)
+}
+
+type c09CallerKey int8 // same kind as the library's private context keys, another type
+
+// url: the path taken literally, or (server) the request line parsed as the server parses it — an escaped
+// octet then stays escaped in RawPath and is decoded in Path.
+func (q c09Req) url() *url.URL {
+	if q.server {
+		line := q.path
+		if q.query != "" {
+			line += "?" + q.query
+		}
+		if u, err := url.ParseRequestURI(line); err == nil {
+			return u
+		}
+	}
+	return &url.URL{Path: q.path, RawQuery: q.query}
 }
 
 // mk builds a fresh *http.Request; the body's length is always announced (ContentLength).
 func (q c09Req) mk(read *int, drained bool) *http.Request {
 	r := &http.Request{
-		Method: q.method, URL: &url.URL{Path: q.path, RawQuery: q.query},
+		Method: q.method, URL: q.url(),
 		Proto: "HTTP/1.1", ProtoMajor: 1, ProtoMinor: 1, Header: http.Header{}, Host: "localhost",
 		ContentLength: int64(len(q.body)),
 	}
 	r.RequestURI = r.URL.RequestURI()
+	chunk := 0
+	if q.server {
+		// the server leaves the header it parsed ContentLength from in place; the request comes with the
+		// connection's context, here one that already carries values under keys of the caller's own
+		r.Header.Set("Content-Length", strconv.Itoa(len(q.body)))
+		r.RemoteAddr = "192.0.2.1:1234"
+		ctx := context.Background()
+		for k := 0; k < 8; k++ {
+			// (small integers of the caller's own type and of the basic types: nobody else's keys)
+			ctx = context.WithValue(ctx, c09CallerKey(k), "caller's")
+			ctx = context.WithValue(ctx, int8(k), "caller's")
+			ctx = context.WithValue(ctx, k, "caller's")
+		}
+		r = r.WithContext(ctx)
+		chunk = 1 + len(q.body)%7
+	}
 	if len(q.cts) > 0 {
 		r.Header["Content-Type"] = append([]string(nil), q.cts...)
 	}
@@ -368,7 +500,7 @@ func (q c09Req) mk(read *int, drained bool) *http.Request {
 	if q.tok != "" {
 		r.Header.Set("X-Tok", q.tok)
 	}
-	b := &c09Body{data: []byte(q.body), read: read}
+	b := &c09Body{data: []byte(q.body), read: read, chunk: chunk}
 	if drained {
 		b.off = len(b.data)
 	}
@@ -480,7 +612,8 @@ func c09ExecA(in []string) []string {
 	}
 	variant := proto.UnN(in[1])
 	q := c09Req{method: proto.UnB(in[2]), path: proto.UnB(in[3]), query: proto.UnB(in[4]),
-		cts: proto.UnL(in[5]), accs: proto.UnL(in[6]), creds: proto.UnL(in[7]), authz: proto.UnB(in[8]), body: proto.UnB(in[9])}
+		cts: proto.UnL(in[5]), accs: proto.UnL(in[6]), creds: proto.UnL(in[7]), authz: proto.UnB(in[8]), body: proto.UnB(in[9]),
+		server: variant&c09ServerLike != 0}
 	table := c09UnLists(in[10])
 	var prog [][3]byte
 	if in[11] != "." {
@@ -492,15 +625,19 @@ func c09ExecA(in []string) []string {
 			prog = append(prog, [3]byte{b[0], b[1], b[2]})
 		}
 	}
-	if variant < 0 || variant > 1 || len(prog) == 0 {
+	if variant < 0 || variant >= c09VariantEnd || len(prog) == 0 {
 		return []string{"INVALID"}
 	}
 	a := c09Get(variant)
+	if variant&c09Debug != 0 {
+		middleware.Debug = true // the package-level switch some debug output hangs on (router.Lookup)
+		defer func() { middleware.Debug = false }()
+	}
 
 	// ---- the stage functions on their own (fresh requests, a fresh route, nothing memoised)
 	oracle := &c09Sink{}
 	a.sink = oracle
-	escaped := (&url.URL{Path: q.path}).EscapedPath()
+	escaped := q.url().EscapedPath()
 	route, found := a.inner.Lookup(q.method, escaped)
 	out := make([]string, 0, 14+len(prog))
 	if found {
@@ -616,12 +753,19 @@ func c09ExecA(in []string) []string {
 		}
 		return "F/" + strconv.Itoa(rid(m)) + "/" + proto.B(m.Operation.ID) + "/" + proto.L(c09Params(m.Params))
 	}
-	for _, ins := range prog {
+	for pc, ins := range prog {
 		back := int(ins[2])
 		if back > len(vals)-1 {
 			back = len(vals) - 1
 		}
 		r := vals[len(vals)-1-back]
+		if variant&c09Interloper != 0 {
+			// somebody else's request is taken through every accessor of the same Context in between
+			// (its effects are nobody's business here: no sink)
+			a.sink = nil
+			c09Foreign(a, pc)
+			a.sink = sink
+		}
 		sink.events = nil
 		read0 := read
 		ret1, s1, ret2, s2 := "-", "-", "-", "-"
@@ -680,6 +824,16 @@ func c09ExecA(in []string) []string {
 				if rc2 != nil {
 					r = rc2
 				}
+				if err == nil && p != nil && rc2 != nil {
+					// another asker that holds the returned request value but a route it looked up itself (nothing
+					// recorded on it yet): it is handed the stored principal — same request, no effect
+					if fresh, ok := a.inner.Lookup(r.Method, r.URL.EscapedPath()); ok {
+						p3, rc3, err3 := a.ctx.Authorize(r, fresh)
+						if rc3 != r || err3 != nil || fmt.Sprint(p3) != fmt.Sprint(p) {
+							s2 += "!other-asker"
+						}
+					}
+				}
 			case 5:
 				m, rc, ok := a.ctx.RouteInfo(r)
 				ret1, s1 = kind(rc, r), res1(m, ok)
@@ -710,6 +864,17 @@ func c09ExecA(in []string) []string {
 					}
 					if rc3 != r || c09Codes(err3) != c09Codes(err) || b3 != b {
 						s2 += "!other-asker:" + c09Codes(err3)
+					}
+					// … and one with a route it looked up itself
+					if fresh, ok := a.inner.Lookup(r.Method, r.URL.EscapedPath()); ok {
+						bound4, rc4, err4 := a.ctx.BindAndValidate(r, fresh)
+						b4 := ""
+						if bm, ok := bound4.(map[string]interface{}); ok && len(bm) > 0 {
+							b4 = c09Render(bm)
+						}
+						if rc4 != r || c09Codes(err4) != c09Codes(err) || b4 != b {
+							s2 += "!fresh-asker:" + c09Codes(err4)
+						}
 					}
 				}
 			case 6:
@@ -746,6 +911,33 @@ func c09ExecA(in []string) []string {
 	return out
 }
 
+// c09Foreign: one of three requests that have nothing to do with the case at hand, taken through the
+// accessors of the case's Context the way the handler chain does it.
+var c09Foreigners = []c09Req{
+	{method: "PUT", path: "/api/items/999", query: "q=foreign", cts: []string{"text/plain; charset=foreign"}, accs: []string{"text/plain"},
+		creds: []string{"key=pmallory"}, body: "foreign body"},
+	{method: "POST", path: "/api/items", cts: []string{"application/json"}, accs: []string{"application/json"}, body: `{"foreign":true}`, server: true},
+	{method: "DELETE", path: "/api/items/998", accs: []string{"image/png"}, creds: []string{"key=e403", "basic=pmallory", "tok=pmallory"}, authz: "d403"},
+}
+
+func c09Foreign(a *c09API, i int) {
+	defer func() { _ = recover() }()
+	r := c09Foreigners[i%len(c09Foreigners)].mk(nil, false)
+	m, rc, ok := a.ctx.RouteInfo(r)
+	if !ok {
+		return
+	}
+	r = rc
+	if _, _, rc, err := a.ctx.ContentType(r); err == nil {
+		r = rc
+	}
+	_, r = a.ctx.ResponseFormat(r, m.Produces)
+	if _, rc, err := a.ctx.Authorize(r, m); err == nil && rc != nil {
+		r = rc
+	}
+	_, _, _ = a.ctx.BindAndValidate(r, m)
+}
+
 // ---------------------------------------------------------------------------------------------
 // stream R
 
@@ -765,7 +957,9 @@ func c09DecReq(s, tok string) (c09Req, bool) {
 		}
 		return strings.Split(x, "\x01")
 	}
-	return c09Req{method: p[0], path: p[1], query: p[2], cts: sp(p[3]), accs: sp(p[4]), creds: sp(p[5]), authz: p[6], body: p[7], tok: tok}, true
+	// every other request (by its token) comes the way net/http's server hands requests over
+	server := len(tok) > 0 && (tok[len(tok)-1]-'0')%2 == 1
+	return c09Req{method: p[0], path: p[1], query: p[2], cts: sp(p[3]), accs: sp(p[4]), creds: sp(p[5]), authz: p[6], body: p[7], tok: tok, server: server}, true
 }
 
 // every run of 6 or more digits in s (the correlation tokens are such numbers; nothing else is)
@@ -818,13 +1012,24 @@ func c09ExecR(in []string) []string {
 		}
 		return s + "|no-authorizer-call"
 	}
-	// alone: every request against a handler of its own, built the same way
+	// alone: every request against a handler of its own, built the same way. Which of the public
+	// constructors of the handler chain is used, and whether debug logging is on, is the case's own
+	// choice (a function of n and GOMAXPROCS): Serve, ServeWithBuilder with a wrapping builder,
+	// Context.APIHandler / RoutesHandler / APIHandlerSwaggerUI / APIHandlerRapiDoc.
+	entry, variant := (n+procs)%6, 0
+	if (n+procs)/6%2 == 1 {
+		variant = c09Debug
+	}
+	if variant&c09Debug != 0 {
+		middleware.Debug = true
+		defer func() { middleware.Debug = false }()
+	}
 	solo := make([]string, n)
 	for i, q := range reqs {
-		b := c09Build(0, true)
+		b := c09Build(variant, true, entry)
 		solo[i] = withAuthz(b, i, serve(b, q))
 	}
-	a := c09Build(0, true)
+	a := c09Build(variant, true, entry)
 
 	old := goruntime.GOMAXPROCS(procs)
 	defer goruntime.GOMAXPROCS(old)
@@ -868,7 +1073,12 @@ func c09GenReq(r *proto.Rng, tok string) c09Req {
 	if id == "" {
 		id = r.Pick("7", "7", "42", "x", "a%2Fb")
 	}
-	switch r.Intn(16) {
+	switch r.Intn(18) {
+	case 16:
+		q.method, q.path = "PATCH", "/api/items/"+id // answered 204
+	case 17:
+		// (a path of its own: a 405 that lists two other methods lists them in the order of a Go map)
+		q.method, q.path = r.Pick("HEAD", "head"), "/api/ping"
 	case 0, 1, 2:
 		q.method, q.path = "GET", "/api/items/"+id
 	case 3, 4, 5, 6:
@@ -931,9 +1141,10 @@ func c09GenReq(r *proto.Rng, tok string) c09Req {
 	case 5:
 		q.accs = []string{"text/plain"}
 	case 6:
-		q.accs = []string{r.Pick("text/*;q=0.5, application/json", "*/*", "text/plain;q=0.2, application/json;q=0.1")}
+		q.accs = []string{r.Pick("text/*;q=0.5, application/json", "*/*", "text/plain;q=0.2, application/json;q=0.1",
+			"Text/Plain", "application/json; charset=utf-8", "APPLICATION/JSON;q=0.3, text/plain;q=0.3")}
 	case 7:
-		q.accs = []string{r.Pick("application/xml", "image/png", "text/plain;q=0")}
+		q.accs = []string{r.Pick("application/xml", "image/png", "text/plain;q=0", "", "text", ";")}
 	case 8:
 		q.accs = []string{"text/plain", "application/json"}
 	default:
@@ -943,7 +1154,9 @@ func c09GenReq(r *proto.Rng, tok string) c09Req {
 		if tok != "" {
 			return r.Pick("palice-", "pbob-") + tok
 		}
-		return r.Pick("palice", "pbob", "palice", "pbob", "p") // "p": the principal is the empty string — a principal like any other
+		// "p": the principal is the empty string — a principal like any other; so are 0, false, a nil
+		// pointer and an empty struct (c09Cred)
+		return r.Pick("palice", "pbob", "palice", "pbob", "p", "p", "i0", "b0", "t0", "s0")
 	}
 	for _, s := range c09Schemes {
 		switch r.Intn(10) {
@@ -1034,7 +1247,7 @@ func c09GenHistory(r *proto.Rng) []string {
 		switch r.Intn(8) {
 		case 0, 1:
 		case 2, 3, 4:
-			q.creds = append(q.creds, s+"="+r.Pick("palice", "pbob", "palice", "p"))
+			q.creds = append(q.creds, s+"="+r.Pick("palice", "pbob", "palice", "p", "i0", "t0"))
 		case 5, 6:
 			q.creds = append(q.creds, s+"="+r.Pick("e401", "e403", "eplain"))
 		default:
@@ -1053,7 +1266,7 @@ func c09GenHistory(r *proto.Rng) []string {
 		}
 		prog = append(prog, c09Instr(in[0], r.Intn(len(table)), in[1]))
 	}
-	return c09CaseA(r.Intn(2), q, table, prog)
+	return c09CaseA(c09GenVariant(r), q, table, prog)
 }
 
 func c09GenA(r *proto.Rng) []string {
@@ -1076,7 +1289,7 @@ func c09GenA(r *proto.Rng) []string {
 		}
 		prog[i] = c09Instr(op, r.Intn(len(table)), back)
 	}
-	return c09CaseA(r.Intn(2), q, table, prog)
+	return c09CaseA(c09GenVariant(r), q, table, prog)
 }
 
 // requests the exhaustive sequences are run on: one per interesting configuration
@@ -1094,6 +1307,27 @@ var c09Fixed = []c09Req{
 	{method: "DELETE", path: "/api/items/7", creds: []string{"basic=pbob"}},
 	// the same with the anonymous alternative first
 	{method: "POST", path: "/api/items", cts: []string{"text/plain"}, creds: []string{"key=e403"}, body: "hello"},
+}
+
+// the flags each fixed request is enumerated under (as before: authorizer / no authorizer in turn)
+var c09FixedVariants = []int{0, c09NoAuthorizer | c09UntypedCtx, c09Debug | c09ServerLike, c09NoAuthorizer | c09Interloper,
+	c09UntypedCtx | c09ServerLike | c09Interloper, c09NoAuthorizer | c09Debug, c09ServerLike, c09NoAuthorizer | c09UntypedCtx | c09ServerLike,
+	c09Debug | c09Interloper, c09NoAuthorizer | c09ServerLike, c09UntypedCtx}
+
+// c09GenVariant: authorizer or not and the two Context constructors evenly; a server-shaped request
+// every other time; debug logging and the interloper (which cost time) one time in four each.
+func c09GenVariant(r *proto.Rng) int {
+	v := r.Intn(4)
+	if r.Chance(1, 4) {
+		v |= c09Debug
+	}
+	if r.Chance(1, 2) {
+		v |= c09ServerLike
+	}
+	if r.Chance(1, 4) {
+		v |= c09Interloper
+	}
+	return v
 }
 
 // the fixed requests the quick tier enumerates all short sequences on
@@ -1120,7 +1354,7 @@ func c09Gen(r *proto.Rng, n int, tier string, emit func(in ...string)) {
 		var enum func(prefix []string)
 		enum = func(prefix []string) {
 			if len(prefix) > 0 {
-				emit(c09CaseA(qi%2, c09Fixed[qi], table, prefix)...)
+				emit(c09CaseA(c09FixedVariants[qi], c09Fixed[qi], table, prefix)...)
 			}
 			if len(prefix) < maxLen {
 				for op := 1; op <= 6; op++ {
